@@ -254,10 +254,15 @@ def check_string_job(args):
     out['fns'] = sorted(out['fns']); out['models'] = sorted(out['models'])
     return out
 
+VIABLE_MAX = [5]      # suffixes up to this length: every viable prefix; longer ones: sentences only
 PRELUDE = ['Token', 'Whitespace', 'Id', 'Semi', 'Start', 'Whitespace', 'Id', 'Semi', 'Id', 'Colon', 'Id', 'Semi']      # token A;start s;s:A;
 
-def smoke_text(kinds):
-    """grammar text for a token-kind sequence: the prelude is `token A; start s; s: A;`, new rules are called h, references go to A"""
+NAMINGS = {'token': 'A', 'self': 'h', 'start': 's', 'undefined': 'u'}
+
+def smoke_text(kinds, naming='token'):
+    """grammar text for a token-kind sequence: the prelude is `token A; start s; s: A;`, new rules are called h; references go to
+    the token A, to the new rule itself (self reference), to the start rule, or to an undefined name, depending on `naming`"""
+    ref = NAMINGS[naming]
     lex = {'LineComment': '//c\n', 'BlockComment': '/*c*/', 'DocComment': '///d\n', 'Whitespace': ' ', 'Token': 'token', 'Start': 'start', 'Right': 'right',
            'Skip': 'skip', 'Part': 'part', 'Colon': ':', 'Semi': ';', 'Equal': '=', 'LPar': '(', 'RPar': ')', 'LBrak': '[', 'RBrak': ']', 'Or': '|', 'Star': '*',
            'Plus': '+', 'Hat': '^', 'Tilde': '~', 'And': '&', 'Slash': '/', 'Str': "'x'", 'Predicate': '?1', 'Action': '#1', 'Assertion': '!1', 'NodeRename': '@r',
@@ -268,7 +273,7 @@ def smoke_text(kinds):
             if i < n0: t = pre_ids[ids]; ids += 1
             else:
                 nxt = kinds[i + 1] if i + 1 < len(kinds) else None; nxt2 = kinds[i + 2] if i + 2 < len(kinds) else None
-                t = 'h' if decl_start and (nxt == 'Colon' or (nxt == 'Hat' and nxt2 == 'Colon')) else ('B' if i > 0 and kinds[i - 1] in ('Token',) else 'A')
+                t = 'h' if decl_start and (nxt == 'Colon' or (nxt == 'Hat' and nxt2 == 'Colon')) else ('B' if i > 0 and kinds[i - 1] in ('Token',) else ref)
         else: t = lex[k]
         if out and (out[-1][-1:].isalnum() or out[-1][-1:] in "_>") and (t[:1].isalnum() or t[:1] == '_'): out.append(' ')
         out.append(t)
@@ -276,11 +281,12 @@ def smoke_text(kinds):
     return ''.join(out) + '\n'
 
 def sema_smoke_job(args):
-    """grammar files = a fixed valid prelude + every declaration suffix of k tokens that is a sentence of the grammar
+    """grammar files = a fixed valid prelude + every declaration suffix of k tokens that is a viable prefix of the grammar
     language (the suffix is symbolic, the solver prunes non-sentences); returns one witness per parser path.  The witnesses are
     then run through the REAL tokenize + Parser + SemanticPass natively (sema itself is not executed symbolically)."""
-    mir_path, k = args
-    out = dict(k=k, paths=0, steps=0, queries=0, solver_time=0.0, witnesses=[], inconclusive=[], fns=set(), models=set(), smoke=True)
+    mir_path, k = args[:2]; prefix = args[2] if len(args) > 2 else None; first_layer = args[3] if len(args) > 3 else False
+    if len(args) > 4: VIABLE_MAX[0] = args[4]
+    out = dict(k=k, paths=0, steps=0, queries=0, solver_time=0.0, witnesses=[], inconclusive=[], fns=set(), models=set(), smoke=True, pending=[])
     try:
         from . import c13
         from .oracle import Oracle
@@ -291,9 +297,16 @@ def sema_smoke_job(args):
         def constraint(tv):
             cs = [tv[i] == tokidx[PRELUDE[i]] for i in range(n0)]
             cs += [z3.And(*[tv[n0 + j] != x for x in triv]) for j in range(k)]
-            cs.append(Oracle(G.rules_dict(), 'file', tv[n0:], tokidx).member())
+            # the suffix is a viable prefix of the grammar language: complete declarations (every sentence is one) and texts that
+            # stop in the middle of a construct - sema also runs on the trees of syntactically broken files
+            o_ = Oracle(G.rules_dict(), 'file', tv[n0:], tokidx)
+            cs.append(o_.viable(k) if k <= VIABLE_MAX[0] else o_.member())
             return cs
-        results, st = frontend.explore_front(fp, n, extra_pc_fn=constraint)
+        if first_layer:      # breadth-first start: the pending decision prefixes are handed to other workers
+            results, st = frontend.explore_front(fp, n, extra_pc_fn=constraint, max_paths=24, bfs=True)
+            out['pending'] = [(mir_path, k, p, False, VIABLE_MAX[0]) for p in st['pending']]
+        else:
+            results, st = frontend.explore_front(fp, n, extra_pc_fn=constraint, seed_decisions=[prefix] if prefix is not None else None)
         out['paths'] = len(results); out['steps'] = st['steps']; out['queries'] = st['queries']; out['solver_time'] = st['solver_time']
         out['fns'] = set(st['fns']); out['models'] = set(st['models'])
         for r in results: out['witnesses'].append(r.witness)
@@ -304,7 +317,7 @@ def sema_smoke_job(args):
 
 def main(t, sd):
     t0 = time.time()
-    N = {'quick': 4, 'thorough': 5}[t]; NS = {'quick': 6, 'thorough': 8}[t]; KS = {'quick': 5, 'thorough': 6}[t]
+    N = {'quick': 4, 'thorough': 5}[t]; NS = {'quick': 6, 'thorough': 8}[t]; KS = {'quick': 6, 'thorough': 7}[t]; VIABLE_MAX[0] = {'quick': 5, 'thorough': 6}[t]
     exe = build_fe_native()
     fp0 = frontend.FrontProgram()
     mir = fp0.mir_path
@@ -317,10 +330,15 @@ def main(t, sd):
         for p in st['pending']: tasks.append((mir, n, p, 0.06 if n >= 4 else 0.5))
     res = []; sres = []; smoke = []
     with ProcessPoolExecutor(workers) as ex:
-        futs = [ex.submit(shard_job, a) for a in tasks] + [ex.submit(check_string_job, (mir, k)) for k in range(2, NS + 1)] + [ex.submit(sema_smoke_job, (mir, k)) for k in range(1, KS + 1)]
-        for f in as_completed(futs):
-            r = f.result()
-            (smoke if r.get('smoke') else (sres if 'diag_paths' in r else res)).append(r)
+        futs = [ex.submit(shard_job, a) for a in tasks] + [ex.submit(check_string_job, (mir, k)) for k in range(2, NS + 1)] + [ex.submit(sema_smoke_job, (mir, k, None, k >= 4, VIABLE_MAX[0])) for k in range(1, KS + 1)]
+        pend = set(futs)
+        while pend:
+            from concurrent.futures import wait, FIRST_COMPLETED
+            done, pend = wait(pend, return_when=FIRST_COMPLETED)
+            for f in done:
+                r = f.result()
+                (smoke if r.get('smoke') else (sres if 'diag_paths' in r else res)).append(r)
+                for a in r.get('pending', []): pend.add(ex.submit(sema_smoke_job, a))
     viol = []; inconc = []; paths = 0; steps = 0; queries = 0; stime = 0.0; fns = set(); mods = set(); wits = []; forks = 0
     for n, results, st in first:
         paths += len(results); steps += st['steps']; queries += st['queries']; stime += st['solver_time']; fns |= set(st['fns']); mods |= set(st['models'])
@@ -350,8 +368,13 @@ def main(t, sd):
     smoke_paths = 0; smoke_run = 0
     for r in smoke:
         smoke_paths += r['paths']; steps += r['steps']; queries += r['queries']; stime += r['solver_time']; inconc += r['inconclusive']
-        texts = [smoke_text([fp0.tokens[k] for k in w]) for w in r['witnesses']]
-        for w, txt, o in zip(r['witnesses'], texts, fe_native_run(exe, ['TEXT ' + x.encode().hex() for x in texts]) if texts else []):
+        pairs = []; seen_txt = set()
+        for w in r['witnesses']:
+            for nm in NAMINGS:
+                x = smoke_text([fp0.tokens[k] for k in w], nm)
+                if x not in seen_txt: seen_txt.add(x); pairs.append((w, x))
+        texts = [x for _, x in pairs]
+        for (w, _), txt, o in zip(pairs, texts, fe_native_run(exe, ['TEXT ' + x.encode().hex() for x in texts]) if texts else []):
             smoke_run += 1
             if o.get('panic') or o.get('bad_spans'):
                 viol.append(dict(kind='sema-panic' if o.get('panic') else 'sema-span', n=len(w), witness=w, text=txt, smoke=True,
@@ -416,7 +439,7 @@ def finish(t, sd, t0, N, NS, paths, spaths, steps, queries, stime, fns, mods, vi
                samples=samples or [{'note': 'none'}], exhaustive=not inconc,
                explanation='states = leaves + fork nodes of the decision trees of the front-end parser (per input length) and of check_string (per string length); transitions = MIR statements executed',
                bounds=dict(max_lexical_items=N, token_kinds=fp0.NTOK - 1, string_chars_max=NS, tier=t),
-               parser_paths=paths, check_string_paths=spaths, sema_smoke=dict(prelude=' '.join(PRELUDE), suffix_tokens_max=KS, parser_paths=smoke_paths, grammar_files_run_through_real_sema=smoke_run, note='SemanticPass::run is executed natively on one solver-chosen representative per parser path; it is not executed symbolically'), solver_queries=queries, solver_time_s=round(stime, 3),
+               parser_paths=paths, check_string_paths=spaths, sema_smoke=dict(prelude=' '.join(PRELUDE), suffix_tokens_max=KS, viable_prefixes_up_to=VIABLE_MAX[0], namings=list(NAMINGS), parser_paths=smoke_paths, grammar_files_run_through_real_sema=smoke_run, note='SemanticPass::run is executed natively on one solver-chosen representative per parser path; it is not executed symbolically'), solver_queries=queries, solver_time_s=round(stime, 3),
                functions_encoded=sorted(fns), std_models=sorted(mods),
                witnesses_not_producible_by_the_real_lexer=unlexable, native_sema_panics_or_bad_spans_on_validated_witnesses=sema_panics,
                inconclusive=inconc[:40], engine_native_mismatches=mism[:20], known_findings_hit=known_hits, violations_reported=reported)
